@@ -528,7 +528,7 @@ func (g *GcsEmu) handleGcsNewObject(ctx context.Context, baseUrl HttpBaseUrl, w 
 			Conds:  conds,
 		})
 
-		w.Header().Set("Location", ObjectUrl(baseUrl, bucket, obj.Name)+"?upload_id="+id)
+		w.Header().Set("Location", ObjectUrl(baseUrl, bucket, url.PathEscape(obj.Name))+"?upload_id="+id)
 		w.Header().Set("Content-Type", obj.ContentType)
 		w.WriteHeader(http.StatusOK)
 		return
